@@ -30,7 +30,7 @@ def files_of(base):
            ["c.extra%d.jbkc" % k for k in range(base["extra"])]
 
 
-def gen_ops(base, sizes, tier, rng):
+def gen_ops(base, sizes, tier, rng, ranges=()):
     """list of (file, op)"""
     ops = [("c.jbk", "none")]
     for fname in files_of(base):
@@ -70,6 +70,13 @@ def gen_ops(base, sizes, tier, rng):
         elif base["id"] == "b0":
             for pos in range(0, size - 5, 11):
                 ops.append((fname, "xor:%d:%s" % (pos, KERNEL)))
+    # CRC-valid alterations aimed at the integrity check itself (known finding K3): the kind byte of every check
+    # block and the uuid in every pack header, as located by the model
+    for name, ppos, cp, cs, kb, cnt in ranges:
+        for pos in (int(ppos) + int(cp), int(ppos) + 12):
+            op = (name, "xor:%d:%s" % (pos, KERNEL))
+            if op not in ops:
+                ops.append(op)
     # not a jubako file at all
     for tok in ["g:0:1:z", "g:10:1:r", "g:59:1:r", "g:60:2:r", "g:64:3:r", "g:200:4:r", "x:6a626b", "x:6a626b43" + "00" * 56,
                 "x:6a626b6d01020304000299" + "00" * 53, "g:5000:9:t"]:
@@ -107,7 +114,14 @@ def explore(res, tier, seed):
     for b in bases(tier):
         bdir = os.path.join(tmp, "pk_%s_base" % b["id"])
         sizes = {fn: os.path.getsize(os.path.join(bdir, fn)) for fn in files_of(b)}
-        ops = gen_ops(b, sizes, tier, rng)
+        # where the packs and their check blocks are, according to the model
+        rf, ro = os.path.join(wd, "ranges_%s.txt" % b["id"]), os.path.join(wd, "ranges_%s.out" % b["id"])
+        with open(rf, "w") as f:
+            f.write("case r container\nmain %s\n%sranges\nend\n" % (
+                os.path.join(bdir, "c.jbk"), "".join("sibling %s %s\n" % (fn, os.path.join(bdir, fn)) for fn in files_of(b) if fn != "c.jbk")))
+        C.run_model(rf, ro)
+        ranges = [l.split(" ")[1:] for l in C.read_obs(ro).get("r", []) if l.startswith("range ")]
+        ops = gen_ops(b, sizes, tier, rng, ranges)
         keep = os.path.join(wd, "bases", b["id"])
         C.sh(["rm", "-rf", keep]); os.makedirs(os.path.dirname(keep), exist_ok=True)
         C.sh(["cp", "-r", bdir, keep])
@@ -287,6 +301,15 @@ def model_agrees(rust, model):
     if r0 == "open OK" and m0 == "open OK":
         rr = [l for l in rust if l.startswith(("index", "entry", "packcount"))]
         mm = [l for l in model if l.startswith(("index", "entry", "packcount"))]
+        # the implementation looks an index up by name, the model lists the indexes by number: a name that
+        # is not found there must not be the name of an index here
+        absent = [l.split(" ")[1] for l in rr if l.startswith("index ") and l.endswith(" NONE")]
+        if absent:
+            names = set(l.split(" ")[1] for l in mm if l.startswith("index "))
+            if any(a in names for a in absent):
+                return False
+            rr = [l for l in rr if not (l.startswith("index ") and l.endswith(" NONE"))]
+            mm = [l for l in mm if l.startswith("packcount")]
         if len(rr) != len(mm):
             # the implementation loads the stores of an index when its builder is made, the model when a
             # value is asked for: a failed store shows as one line there, as failed values here
